@@ -199,6 +199,16 @@ def outer():
     a = b = 1
     return get_a, get_b
 ''',
+    "kinds_in_sets": '''
+def sniff(head, tag, n):
+    if head[:4] in {b"GIF8", b"RIFF", b"\\x89PNG"}:
+        return "image"
+    if tag in {None, 0}:
+        return None
+    if tag in {"abc", None, 7, 2.5, (1, b"x")}:
+        return b"abc"
+    return n in {b"AIFC", "AIFC"}, (b"GIF8", "GIF8", frozenset)
+''',
     "big_tables": None,
     "exc_star": '''
 def f():
